@@ -692,7 +692,8 @@ class BrownianInterval(brownian_base.BaseBrownian, _Interval):
         if self._cache_size is None:  # cache_size=None corresponds to infinite cache.
             cache_size = 100
         else:
-            cache_size = min(self._cache_size, 100)
+            # At least 1: with cache_size=0 the pieces would have length zero and the refinement below never stops.
+            cache_size = max(min(self._cache_size, 100), 1)
 
         self._tree_dt = min(self._tree_dt, dt)
         # Rationale: We are prepared to hold `cache_size` many things in memory, so when making steps of size `dt`
